@@ -151,6 +151,13 @@ def work_item(args):
                             rec['replay'] = replay.try_replay(world, kind, name.split('@')[0], prop_id, ob, v, pr)
                         except Exception as e:
                             rec['replay'] = {'status': 'error', 'detail': '%s: %s' % (type(e).__name__, e)}
+                    if ob.kind == 'structure' and (rec.get('replay') or {}).get('status') != 'confirmed':
+                        # a clause about HOW the code computes (which library calls it makes, which sum it divides
+                        # by).  When it fails without a natively confirmed failing input the proof decomposition no
+                        # longer matches the code - an equivalent re-formulation would look the same - so this is
+                        # undecided, not a violation (the value clauses and the stand-ins decide).
+                        rec['status'] = 'undecided'
+                        rec['reason'] = 'proof decomposition does not match the code any more (%s); no failing input confirmed' % ob.name.split('::')[-1]
                 elif v.status == 'undecided':
                     rec['reason'] = v.reason
                 out['obligations'].append(rec)
